@@ -139,3 +139,44 @@ def run_iter(ctx, rep, rule):
                           what=f"{k}: {hit} over RusticResult items [exception: {why}]" if why else
                                f"{k}: {hit} applied to an iterator of RusticResult items silently DROPS read errors (a tampered or unreadable file is skipped instead of reported)")
     rep.count(f"{rule}: adaptor sites over RusticResult items", n)
+    run_items(ctx, rep, rule + "i")
+
+
+# ---- items of a loop over streamed repository reads are propagated -------------------------------------------
+ITEM_EXC = {
+}
+
+
+def run_items(ctx, rep, rule):
+    """`for item in <iterator of RusticResult>`: the Err case of every item must leave the function as an error (`?`,
+    transpose()? or returning the item); a `match`/`if let` that logs and carries on skips an unreadable file"""
+    prog = ctx.prog
+    rep.rule(rule, "the Err case of every item taken from an iterator of RusticResult values is propagated (`?` / transpose()? / returned)")
+    n = 0
+    ordn = {}
+    for b in prog.by_crate["rustic_core"]:
+        for bb, t in b.calls():
+            if "callee" not in t or not re.search(r"Iterator(>)?::next$", callee(t) + " " + callee_decl(t)):
+                continue
+            dt = t.get("dest_ty", "")
+            if not (dt.startswith("std::option::Option<std::result::Result<") and "RusticError" in dt):
+                continue
+            n += 1
+            k = fn_key(b)
+            ordn[k] = ordn.get(k, 0) + 1
+            aliases, consumers, returned = flow.forward_aliases(b, t["dest"][0])
+            how = None
+            if returned:
+                how = "returned"
+            for (cb, ct, ai) in consumers:
+                c = callee(ct)
+                if c.endswith("::from_residual"):
+                    how = how or "?"
+                elif c.endswith("::transpose") and classify(b, cb)[0] in ("?", "return"):
+                    how = how or "transpose()?"
+            why = ITEM_EXC.get(k)
+            rep.check(rule, f"{k}/item/{ordn[k]}", how is not None or why is not None, where=where(b, bb),
+                      what=f"{k}: items of {strip_crate(callee(t))[:70]} are propagated with {how}" if how else
+                           (f"{k}: [exception: {why}]" if why else
+                            f"{k}: the Err case of an item read from the repository is handled locally (logged/skipped) instead of propagated: an unreadable or tampered file is silently left out"))
+    rep.floor(rule, "loops over RusticResult items", n, 10)
